@@ -5,6 +5,6 @@ import "time"
 func init() {
 	registry = append(registry, property{id: "C03", parts: []part{
 		{name: "concurrent", pkg: "./c03", run: "^TestConcurrent$",
-			shards: [2]int{16, 16}, checks: [2]int{6, 60}, timeout: [2]time.Duration{24 * min, 60 * min}},
+			shards: [2]int{16, 16}, checks: [2]int{6, 60}, timeout: [2]time.Duration{24 * min, 120 * min}},
 	}})
 }
